@@ -12,12 +12,10 @@ from contracts import C06_int, C06_bounded
 def check(run):
     C06_int.check(run)
     C06_int.check_transformations(run)
-    try:
-        from contracts import C06_enum
+    from contracts import C06_fermi
 
-        C06_enum.check(run)
-    except ImportError:
-        run.notes.append("C06_enum (partitions successor / rank-step ghost lemma): not built yet")
+    C06_fermi.check(run)
+    run.notes.append("bosonic enumeration (partitions successor / rank step): not under contract, bounded stand-in only")
     try:
         from vf import lean
 
@@ -33,6 +31,9 @@ def check(run):
                "(vf/lift.py rules R1-R8, applied mechanically to the real source on every run): one generic element, shapes and "
                "broadcasting dropped, every array temporary must fit int64 and every stored value the dtype of its array")
     run.assume("spec functions S and RK are defined by their unfold equations (recursive definitions); C by the Lean lemmas named in trusted_base")
+    run.assume("fermionic enumeration: successor step (rank + 1, sector change), rank of the first vector = 0 and the dimension sums are "
+               "proved; the induction over get_fock_space_basis (occupation <-> first-quantised conversion, one call per row) is a stated "
+               "argument over these contracts and is evaluated by the bounded stand-in")
     run.assume("pre-conditions state the property's own range: every partial sum / partial index / binomial term fits 32 bits")
 
 
